@@ -229,7 +229,7 @@ def staticCallsT (st : StructTable) (insOf : String → List Param)
       let ixs := ci.getD (false, [])
       -- a `disabled` modifier on a map call is not covered
       let ok := ci.isSome && !ixs.2.isEmpty && splitsStaticT st self sib (insOf c.callee) c ixs &&
-        c.disabled.isNone && noMergeOf c.id r.1.exp
+        c.disabled.isNone && pushOk c.id ixs.1 r.1.exp
       if ci.isNone && (runtimeMode st self sib (insOf c.callee) c).isSome then
         -- run-time size: the outputs are a `merge` over the call (resolve_pipeline.go / resolve_stage.go)
         let m := (runtimeMode st self sib (insOf c.callee) c).getD false
@@ -255,10 +255,10 @@ def staticCallsT (st : StructTable) (insOf : String → List Param)
 
 def staticCallableT (P : Program) (nm : List String → String) :
     Nat → String → List String → RBMap → RB × List STree
-  | 0, _, _, _ => (⟨.lit .null, badTy⟩, [])
+  | 0, callee, _, _ => (⟨.lit .null, ⟨callee, 0, 0⟩⟩, [])
   | fuel+1, callee, path, ins =>
     match P.callables.lookup callee with
-    | none => (⟨.lit .null, badTy⟩, [])
+    | none => (⟨.lit .null, ⟨callee, 0, 0⟩⟩, [])
     | some (.stage _ _) => (⟨.ref (nm path) ⟨callee, 0, 0⟩ [], ⟨callee, 0, 0⟩⟩, [.node ⟨path, callee, ins, [], []⟩])
     | some (.pipeline _ outs calls ret) =>
       let r := staticCallsT P.table P.insOf (staticCallableT P nm fuel) path ins calls [] []
@@ -465,13 +465,13 @@ def storeOfNodesR (st : StructTable) (nf : Nat) (nm : List String → String) (n
 /-! ### the fragment of the refinement with map calls of run-time size -/
 
 mutual
-/-- `treeOk` + ARRAY-mode map calls of run-time size whose callee's outputs contain neither the
-call's own split nor a merge over it -/
+/-- `treeOk` + map calls of run-time size whose callee's outputs contain neither the call's own split
+nor a merge over it -/
 def treeOkP (above : List String) : STree → Bool
   | .node _ => true
   | .sub c _ _ ok ch => ok && !above.contains c && treeOkPList (above ++ [c]) ch
   | .guard _ ch => treeOkPList above ch
-  | .subR c m _ _ ok ch => ok && !m && !above.contains c && treeOkPList (above ++ [c]) ch
+  | .subR c _ _ _ ok ch => ok && !above.contains c && treeOkPList (above ++ [c]) ch
 def treeOkPList (above : List String) : List STree → Bool
   | [] => true
   | t :: ts => treeOkP above t && treeOkPList above ts
@@ -484,12 +484,12 @@ def idxOkT (st : StructTable) (nf : Nat) (ρ : Store) : ForkAssign → STree →
   | _, .node _ => true
   | f, .sub c _ ixs _ ch => ixs.all fun ix => idxOkTList st nf ρ (fset f c ix) ch
   | f, .guard _ ch => idxOkTList st nf ρ f ch
-  | f, .subR c _ _ cins _ ch =>
+  | f, .subR c m _ cins _ ch =>
     !(ρ.idx c f).isEmpty &&
     (cins.all fun kv =>
       match kv.2.exp with
       | .split c' _ src =>
-        c' != c || decide (indicesOf (evalRT st nf ρ f (liftSplitTy false kv.2.ty) src) = ρ.idx c f)
+        c' != c || decide (indicesOf (evalRT st nf ρ f (liftSplitTy m kv.2.ty) src) = ρ.idx c f)
       | _ => true) &&
     (ρ.idx c f).all fun ix => idxOkTList st nf ρ (fset f c ix) ch
 def idxOkTList (st : StructTable) (nf : Nat) (ρ : Store) : ForkAssign → List STree → Bool
@@ -521,6 +521,45 @@ def storeOfRun (nm : List String → String) (nodes : List SNode)
       match occ.lookup c with
       | some (path, dims) => I ⟨path, dims.map fun d => (d, (f.lookup d).getD .none)⟩
       | none => [] }
+
+/-! ### the domain on which the static model is tied to the compiler -/
+
+mutual
+/-- no run-time `disabled` control is (or contains) an element of a split collection: for those the
+compiler simplifies the control (`resolveDisableExp` on `SplitExp`: single elements, all-equal
+literals, distribution over a literal) — not modelled, such programs are not compared with
+`MakeCallGraph` -/
+def ctlNoSplit : STree → Bool
+  | .node _ => true
+  | .sub _ _ _ _ ch => ctlNoSplitList ch
+  | .guard d ch => !hasSplitR d && ctlNoSplitList ch
+  | .subR _ _ _ _ _ ch => ctlNoSplitList ch
+def ctlNoSplitList : List STree → Bool
+  | [] => true
+  | t :: ts => ctlNoSplit t && ctlNoSplitList ts
+end
+
+/-! ### the order of the instances below nested map calls -/
+
+/-- the cartesian product, first list fastest (the loop of `MakeForkIds`) -/
+def prodFF {α : Type} : List (List α) → List (List α)
+  | [] => [[]]
+  | xs :: rest => (prodFF rest).flatMap fun tail => xs.map (· :: tail)
+
+/-- the cartesian product, first list slowest (den: for each index of the outer call, everything below) -/
+def prodFS {α : Type} : List (List α) → List (List α)
+  | [] => [[]]
+  | xs :: rest => xs.flatMap fun x => (prodFS rest).map (x :: ·)
+
+/-- a chain of nested statically sized map calls around one stage node -/
+def chainT : List (String × List Idx) → SNode → STree
+  | [], n => .node n
+  | (c, ixs) :: rest, n => .sub c false ixs true [chainT rest n]
+
+/-- the fork ids of den's order for a chain of map calls (outermost first) -/
+def denForks : List (String × List Idx) → List (List (String × Idx))
+  | [] => [[]]
+  | (c, ixs) :: rest => ixs.flatMap fun ix => (denForks rest).map ((c, ix) :: ·)
 
 /-- a stage instance of den as the code delivers it: "no value" (`dnull`) rendered as JSON null -/
 def eraseInst (i : Inst) : Inst := { i with args := J.erase i.args }
